@@ -113,6 +113,11 @@ def _run_psd(case, ctx):
         k_step = r.randint(1, n - 1)
         v = numpy.full(n, 0.1)
         v[k_step:] = 0.1 + r.uniform(0.05, 0.9)
+    # the analysis is homogeneous in the adsorbed volume: a low-area sample or one recorded per mg has numbers six to eight
+    # decades smaller
+    vscale = r.choice([1.0, 1.0, 1.0, 1e-3, 1e-6, 1e-8])
+    v = v * vscale
+    ctx.count("volume_scale", "x%g" % vscale)
     # limits
     lim_kind = r.choice(["default", "none", "manual", "manual"])
     if lim_kind == "default":
